@@ -671,6 +671,13 @@ func newPlistLineSorter(plines []*PlistLine) *plistLineSorter {
 		if unsortable == nil && (hasPrefix(pline.text, "@") || contains(pline.text, "$")) {
 			unsortable = pline.Line
 		}
+
+		// A line that has been inserted above or below another line,
+		// such as the CVS Id, would be moved around together with that
+		// line. Sorting has to wait until the next run.
+		if fix := pline.Line.fix; unsortable == nil && fix != nil && len(fix.above)+len(fix.below) > 0 {
+			unsortable = pline.Line
+		}
 	}
 
 	// A last line that does not end with a newline cannot be moved to
